@@ -203,14 +203,19 @@ def main():
             machinery = f"{p['id']} rejected only with unexpected error classes {sorted(codes)}: {errs[0][1]}"
     for p in uns:
         unspecified_verdicts[p["id"]] = "rejected" if per.get(p["id"]) else "accepted"
+    # unspecified cells that the compiler accepts are run as well: whatever the API offers to safe
+    # code must not fault (a non-zero exit from an `unwrap` on Err is fine, a signal is not)
+    uns_run = [p for p in uns if unspecified_verdicts.get(p["id"]) == "accepted"]
+    uns_ids = {p["id"] for p in uns_run}
     # must-accept cells: must compile, then run each in a forked child
-    d2 = write_crate("c20_accept", acc, True)
+    acc_all = acc + uns_run
+    d2 = write_crate("c20_accept", acc_all, True)
     r2 = cargo(d2, ["build", "--message-format=json"])
     per2, other2 = diagnostics(r2.stdout)
     runs = {}
     if per2 or r2.returncode != 0:
         for pid_, errs in per2.items():
-            p = next(x for x in acc if x["id"] == pid_)
+            p = next(x for x in acc_all if x["id"] == pid_)
             codes = {c for c, _ in errs if c}
             if codes & STALE and not (codes & CAPABILITY):
                 machinery = f"template for must-accept {pid_} is stale ({sorted(codes)}: {errs[0][1]})"
@@ -224,6 +229,10 @@ def main():
         for line in rr.stdout.splitlines():
             m = re.match(r"RUN (\S+) exit=(-?\d+) signal=(\d+)", line)
             if m: runs[m.group(1)] = (int(m.group(2)), int(m.group(3)))
+        for p in uns_run:
+            res = runs.get(p["id"])
+            if res is not None and res[1] != 0:
+                fails.append(dict(sig=f"C20/offered-program-faults/{p['cont']}/{p['state']}/{p['op']}", what=f"a program the safe API accepts (unspecified cell) died by signal {res[1]} at run time", prog=p))
         for p in acc:
             res = runs.get(p["id"])
             if res is None:
@@ -257,7 +266,7 @@ def main():
               coverage=dict(states=states, transitions=len(progs), traces_validated_against_impl=len(rej) + len(uns) + len(acc) + len(runs),
                             samples=[dict(cell=p["id"], expect=p["expect"], program=p["body"]) for p in (rej[:1] + acc[:1] + rej[-1:])],
                             exhaustive=True, evaluations=len(progs), distinct_nontrivial=len(rej) + len(acc),
-                            rule="one generated program per cell of the permission table (2 containers x 5 type-states x 21 operations + use-after/use-result for every consuming transition + 8 stream cells); must-reject cells: rustc must report >= 1 error of a capability class; must-accept cells: compile and run in a forked child with exit 0 and no signal; unspecified cells recorded only",
+                            rule="one generated program per cell of the permission table (2 containers x 5 type-states x 21 operations + use-after/use-result for every consuming transition + 8 stream cells); must-reject cells: rustc must report >= 1 error of a capability class; must-accept cells: compile and run in a forked child with exit 0 and no signal; unspecified cells are recorded, and those the compiler accepts are also run (a signal is a violation, an Err-unwrap exit is not)",
                             cells=dict(must_reject=len(rej), must_accept=len(acc), unspecified=len(uns)), programs_run=len(runs),
                             reject_error_classes=classes, unspecified_verdicts=unspecified_verdicts, known_findings_matched=list(known_hit)),
               assumptions=["rustc (nightly) is the oracle for compile-time rejection; error classes distinguish a missing capability from a stale template",
